@@ -141,14 +141,18 @@ class SyncedDict(SyncedCollection, MutableMapping):
                             self._validate({key: new_value})
                         self._data[key] = self._from_base(new_value, parent=self)
                     else:
-                        if new_value == existing:
-                            continue
                         if _sc_resolver.get_type(existing) == "SYNCEDCOLLECTION":
                             try:
                                 existing._update(new_value)
                                 continue
                             except ValueError:
                                 pass
+                        elif new_value == existing and type(new_value) is type(
+                            existing
+                        ):
+                            # Equal values of different types (True, 1 and 1.0)
+                            # are different JSON data and must be replaced.
+                            continue
 
                         # Fall through if the new value is not identical to the
                         # existing value and
